@@ -11,7 +11,7 @@
        (Gen/GenCache.v: unbounded_pins_args); without it the statement is false (_refuted).
    PARTIAL for threads: byte-code level preemption inside CPython is not modelled. *)
 From Coq Require Import List Arith.
-Require Import Gen.GenCache Model.Cache Lemmas.CacheLemmas.
+Require Import Gen.GenCache Model.Cache Lemmas.CacheLemmas Model.TypeKey Lemmas.TypeKeyLemmas.
 Import ListNotations.
 
 Theorem C10_unbounded_cache_transparent : forall (V : Type) (f : nat -> V) ks,
@@ -55,3 +55,27 @@ Theorem C10_without_pinning_refuted :
   exists ops i s o, snd (wstep nat false (wrun nat false ops) (Lookup nat i)) = Some s /\
                     find_obj nat i (live nat (wrun nat false ops)) = Some o /\ s <> ostruct nat o.
 Proof. exact unpinned_refuted. Qed.
+
+(* ---------------------------------------------------------------------------------------------
+   The second memo table: the cache of generic subclasses behind  G[params]  (Model/TypeKey.v,
+   tied to pane and typing by corr_typekey).  typing's == identifies Union[int, float] with
+   Union[float, int] and Literal[1, 2] with Literal[2, 1]; pane's ordered key does not. *)
+Theorem C10_ordered_key_determines_the_parameter : forall a b,
+  xwf a = true -> xwf b = true -> okey a = okey b -> a = b.
+Proof. exact okey_injective. Qed.
+Print Assumptions C10_ordered_key_determines_the_parameter.
+
+(* any sequence of specialisations of one generic class, any cache size (evictions included): each
+   result is the class built for ITS OWN parameter -- member order, literal order and all *)
+Theorem C10_subclass_cache_transparent : forall (C : Type) (build : tx -> C) m ps,
+  forallb xwf ps = true -> sc_run C build pane_same m [] ps = map build ps.
+Proof. intros C build m ps W. apply sc_run_transparent; [intros b v []|exact W]. Qed.
+Print Assumptions C10_subclass_cache_transparent.
+
+Theorem C10_equality_keyed_subclass_cache_refuted :
+  exists ps, forallb xwf ps = true /\ sc_run tx (fun a => a) old_same_class 256 [] ps <> map (fun a => a) ps.
+Proof. exact old_key_refuted. Qed.
+
+Theorem C10_equality_keyed_subclass_cache_refuted_literal :
+  exists ps, forallb xwf ps = true /\ sc_run tx (fun a => a) old_same_class 256 [] ps <> map (fun a => a) ps.
+Proof. exact old_key_refuted_literal. Qed.
